@@ -779,7 +779,7 @@ func (f *Frame) vsCall(st *State, name string, call *ast.CallExpr) []Term {
 		return []Term{f.quantifier(st, call, 0, false, nil)}
 	case "ExistsInt", "ExistsString":
 		return []Term{f.quantifier(st, call, 0, true, nil)}
-	case "ForallOldPtr":
+	case "ForallOldPtr", "ForallOldMap":
 		if f.old == nil {
 			vc.fail(call.Pos(), "ForallOldPtr outside a two-state context")
 		}
@@ -1174,6 +1174,91 @@ type closureInfo struct {
 	fr  *Frame
 }
 
+type closureAlt struct {
+	cond Term
+	term string
+}
+
+// closureAlternatives unfolds a function value defined as (ite c a b) over known closures.
+func (vc *VC) closureAlternatives(term string, depth int) []closureAlt {
+	if depth > 8 {
+		return nil
+	}
+	if vc.closureLits[term] != nil || vc.namedFns[term] != nil || term == "0" {
+		return []closureAlt{{True, term}}
+	}
+	body, ok := vc.defs[term]
+	if !ok {
+		return nil
+	}
+	parts := splitSexp(body)
+	if len(parts) != 4 || parts[0] != "ite" {
+		return nil
+	}
+	a := vc.closureAlternatives(parts[2], depth+1)
+	b := vc.closureAlternatives(parts[3], depth+1)
+	if a == nil || b == nil {
+		return nil
+	}
+	c := Term{parts[1], SBool}
+	var out []closureAlt
+	for _, x := range a {
+		out = append(out, closureAlt{And(c, x.cond), x.term})
+	}
+	for _, x := range b {
+		out = append(out, closureAlt{And(Not(c), x.cond), x.term})
+	}
+	return out
+}
+
+// splitSexp splits "(op a b c)" into [op a b c] at the top level.
+func splitSexp(s string) []string {
+	s = strings.TrimSpace(s)
+	if len(s) < 2 || s[0] != '(' || s[len(s)-1] != ')' {
+		return nil
+	}
+	s = s[1 : len(s)-1]
+	var out []string
+	depth, start := 0, -1
+	inStr := false
+	for i := 0; i < len(s); i++ {
+		c := s[i]
+		if inStr {
+			if c == '"' {
+				inStr = false
+			}
+			continue
+		}
+		switch {
+		case c == '"':
+			inStr = true
+			if start < 0 {
+				start = i
+			}
+		case c == '(':
+			if depth == 0 && start < 0 {
+				start = i
+			}
+			depth++
+		case c == ')':
+			depth--
+		case c == ' ' || c == '\n' || c == '\t':
+			if depth == 0 && start >= 0 {
+				out = append(out, s[start:i])
+				start = -1
+			}
+		default:
+			if start < 0 {
+				start = i
+			}
+		}
+	}
+	if start >= 0 {
+		out = append(out, s[start:])
+	}
+	return out
+}
+
 // namedFuncValue: a declared function used as a value. It gets a constant identity; if it has a
 // contract, calling it through the value is a call by contract (see funcValueCall).
 func (f *Frame) namedFuncValue(st *State, fn *types.Func) Term {
@@ -1202,6 +1287,50 @@ func (f *Frame) funcValueCall(st *State, call *ast.CallExpr) []Term {
 	sig, ok := f.typeOf(call.Fun).Underlying().(*types.Signature)
 	if !ok {
 		vc.fail(call.Pos(), "call of a non-function value")
+	}
+	// a merged function value (phi of literals chosen on different branches): case split
+	if alts := vc.closureAlternatives(fv.S, 0); len(alts) > 1 {
+		var argv []Term
+		for i, a := range call.Args {
+			argv = append(argv, f.convert(f.expr(st, a), f.typeOf(a), sig.Params().At(i).Type()))
+		}
+		base := st.clone()
+		var outs []*State
+		var vals [][]Term
+		for _, alt := range alts {
+			bs := base.clone()
+			bs.pc = vc.define("pc", And(base.pc, alt.cond))
+			var rs []Term
+			switch {
+			case vc.closureLits[alt.term] != nil:
+				ci := vc.closureLits[alt.term]
+				rs = ci.fr.inlineLitArgs(bs, ci.lit, argv)
+			case vc.namedFns[alt.term] != nil:
+				rs = f.invoke(bs, vc.prog.funcInfo(vc.namedFns[alt.term]), argv, f.tsub, call.Pos())
+			default: // nil or unknown: the call cannot happen / is uninterpreted on this alternative
+				for i := 0; i < sig.Results().Len(); i++ {
+					rs = append(rs, vc.zero(f.subst(sig.Results().At(i).Type())))
+				}
+				if alt.term == "0" {
+					f.safe(bs, False, "nilfunccall", call.Pos())
+				}
+			}
+			outs = append(outs, bs)
+			vals = append(vals, rs)
+		}
+		nres := sig.Results().Len()
+		results := make([]Term, nres)
+		acc := outs[0]
+		copy(results, vals[0])
+		for i := 1; i < len(outs); i++ {
+			c := acc.pc
+			for j := 0; j < nres; j++ {
+				results[j] = vc.define("res", Ite(c, results[j], vals[i][j]))
+			}
+			acc = vc.merge2(acc, outs[i])
+		}
+		*st = *acc
+		return results
 	}
 	if nfn, known := vc.namedFns[fv.S]; known {
 		fi := vc.prog.funcInfo(nfn)
